@@ -316,6 +316,18 @@ def run(ctx):
             if got_o != want:
                 ctx.violation({"working_directory": cwd.replace(mwork, "<tmp>"), "argument": arg.replace(mwork, "<tmp>"), "rendered": got_o[:200], "stderr": p.stderr.decode("utf-8", "replace")[-200:], "expected": want},
                               "mako-render renders differently from the lookup path (relative include of a template named by a path)", tags=["c08.mako-render.relative-include"])
+        # --output-encoding / --output-file: the bytes of render() with that output_encoding
+        with open(os.path.join(mwork, "enc.html"), "w", encoding="utf-8") as f:
+            f.write("h\u00e9llo ${v}\n")
+        want_b = Template("h\u00e9llo ${v}\n", output_encoding="latin-1").render(v="1")
+        for extra, read in [([], "stdout"), (["--output-file", os.path.join(mwork, "out.bin")], "file")]:
+            ctx.evaluations += 1
+            p = subprocess.run([sys.executable, "-c", "import sys; sys.path[:0]=['/repo']; from mako.cmd import cmdline; cmdline()", "--var", "v=1", "--output-encoding", "latin-1"] + extra + ["enc.html"],
+                               capture_output=True, timeout=120, cwd=mwork)
+            got_b = p.stdout if read == "stdout" else (open(os.path.join(mwork, "out.bin"), "rb").read() if os.path.exists(os.path.join(mwork, "out.bin")) else b"<no file>")
+            if got_b != want_b:
+                ctx.violation({"arguments": ["--output-encoding", "latin-1"] + [a_.replace(mwork, "<tmp>") for a_ in extra], "written": repr(got_b)[:200], "stderr": p.stderr.decode("utf-8", "replace")[-200:], "expected": repr(want_b)},
+                              "mako-render with an output encoding does not write the bytes render() returns", tags=["c08.mako-render.output-encoding"])
     finally:
         shutil.rmtree(mwork, ignore_errors=True)
 
